@@ -75,6 +75,7 @@ func genInfos(r *hx.Rng) []info {
 		n = r.Range(13, 40)
 	}
 	capClass := r.Intn(4) // 0 tiny ties, 1 small, 2 mixed with unlimited, 3 large
+	zeroCaps := r.Chance(12) // out-of-domain stream: exhausted nodes (capacity 0) are never offered by the resource manager
 	cntMax := hx.Pick(r, 0, 1, 3, 6)
 	uClass := r.Intn(3)
 	infos := make([]info, n)
@@ -89,6 +90,9 @@ func genInfos(r *hx.Rng) []info {
 			c = hx.Pick(r, 1, 2, 3, 5, 8, math.MaxInt, math.MaxInt, 3000)
 		default:
 			c = r.Range(1, 100)
+		}
+		if zeroCaps && r.Chance(35) {
+			c = 0
 		}
 		var u, rt int64
 		switch uClass {
